@@ -314,6 +314,16 @@ func TestVerifC05Enum(t *testing.T) {
 	if err := c05CheckEnumRanks(); err != nil {
 		t.Fatalf("VERIF-INFRA: %v", err)
 	}
+	// Round 2: C05_ENUM_BLKID=empty repeats the enumeration with the well-known
+	// empty block d41d8cd98f00b204e9800998ecf8427e+0 as the block id. The set of
+	// layouts is closed under permuting the services, so it stays complete
+	// whatever the rendezvous order of the four UUIDs for that hash is; the
+	// UUIDs are re-sorted anyway so that "service index = rank" keeps holding.
+	hash, size, uuids, fpTag, pfx := c05EnumHash, 1, c05EnumUUIDs, uint64(0), "enum"
+	if os.Getenv("C05_ENUM_BLKID") == "empty" {
+		hash, size, fpTag, pfx = c05EmptyHash, 0, 1<<63, "enum-empty-block"
+		uuids = ref.RendezvousOrder(hash, append([]string(nil), c05EnumUUIDs...))
+	}
 	maxMounts := c05EnvInt("C05_ENUM_MAXMOUNTS", 3)
 	nsh := c05EnvInt("C05_ENUM_SHARDS", 1)
 	shard := *c05Shard
@@ -340,7 +350,7 @@ func TestVerifC05Enum(t *testing.T) {
 				cs := &c05Case{MinMtime: c05MinMtime}
 				gi := 0
 				for si, k := range shape {
-					srv := c05Srv{UUID: c05EnumUUIDs[si], Host: fmt.Sprintf("keep%d.zzzzz.example", si), Port: 25107 + si, RO: roBits>>uint(si)&1 == 1}
+					srv := c05Srv{UUID: uuids[si], Host: fmt.Sprintf("keep%d.zzzzz.example", si), Port: 25107 + si, RO: roBits>>uint(si)&1 == 1}
 					for j := 0; j < k; j++ {
 						mt := c05Mount{UUID: fmt.Sprintf("zzzzz-nyw5e-%015x", gi), Repl: 1, RO: roBits>>uint(len(shape)+gi)&1 == 1}
 						switch ds[gi] {
@@ -360,7 +370,7 @@ func TestVerifC05Enum(t *testing.T) {
 				if err != nil {
 					t.Fatalf("VERIF-INFRA: %v\n%s", err, cs.JSON())
 				}
-				c, k, fail := c05EnumBlocks(w, layoutIdx)
+				c, k, fail := c05EnumBlocks(w, layoutIdx, hash, size, fpTag, pfx)
 				cases += c
 				knownHits += k
 				if fail != "" {
@@ -370,8 +380,9 @@ func TestVerifC05Enum(t *testing.T) {
 			}
 		}
 	}
-	stats.InfoAdd("enum_layouts", layouts)
-	stats.InfoAdd("enum_cases", cases)
+	stats.InfoAdd(pfx+"_layouts", layouts)
+	stats.InfoAdd(pfx+"_cases", cases)
+	stats.Info(pfx+"_blkid", fmt.Sprintf("%s+%d", hash, size))
 	stats.Info("enum_scope", fmt.Sprintf("<=4 services x <=2 mounts, <=%d mounts in total", maxMounts))
 	t.Logf("enumerated %d layouts, %d (layout, block) cases, %d known-finding hits (shard %d/%d, <=%d mounts)", layouts, cases, knownHits, shard, nsh, maxMounts)
 }
@@ -380,17 +391,17 @@ var c05EnumMtimes = [4]int64{0, c05MinMtime - 86400e9, c05MinMtime - 7200e9, c05
 
 // c05EnumBlocks runs every (replication, copy state, desired) combination on
 // one built layout.
-func c05EnumBlocks(w *c05World, layoutIdx int) (cases, known int64, fail string) {
+func c05EnumBlocks(w *c05World, layoutIdx int, hash string, size int, fpTag uint64, pfx string) (cases, known int64, fail string) {
 	nd := len(w.devKeys)
-	layoutLabels := []string{"enum"}
+	layoutLabels := []string{pfx}
 	for _, dev := range w.devKeys {
 		if len(w.devMounts[dev]) > 1 {
-			layoutLabels = append(layoutLabels, "enum:shared-device-in-layout")
+			layoutLabels = append(layoutLabels, pfx+":shared-device-in-layout")
 			break
 		}
 	}
 	if len(layoutLabels) == 1 {
-		layoutLabels = append(layoutLabels, "enum:no-shared-device-in-layout")
+		layoutLabels = append(layoutLabels, pfx+":no-shared-device-in-layout")
 	}
 	for replBits := 0; replBits < 1<<uint(nd); replBits++ {
 		for di, dev := range w.devKeys {
@@ -422,7 +433,7 @@ func c05EnumBlocks(w *c05World, layoutIdx int) (cases, known int64, fail string)
 				continue
 			}
 			for desired := 0; desired <= 4; desired++ {
-				b := &c05Block{Hash: c05EnumHash, Size: 1, Copies: copies, Wants: []c05Want{{N: desired}}}
+				b := &c05Block{Hash: hash, Size: size, Copies: copies, Wants: []c05Want{{N: desired}}}
 				msg, kl, out, f := c05RunScenario(w, b)
 				if msg != "" {
 					w.cs.Blocks = []c05Block{*b}
@@ -436,9 +447,9 @@ func c05EnumBlocks(w *c05World, layoutIdx int) (cases, known int64, fail string)
 				}
 				nt := (len(copies) >= 2 && (len(out.Trashes) > 0 || len(out.Pulls) > 0)) || (len(f.under) > 0 && len(copies) > 0)
 				if len(out.Trashes) > 0 {
-					labels = append(append([]string(nil), labels...), "enum:trash-emitted")
+					labels = append(append([]string(nil), labels...), pfx+":trash-emitted")
 				}
-				stats.Case(uint64(layoutIdx)<<32|uint64(replBits)<<24|uint64(st)<<4|uint64(desired), nt, labels...)
+				stats.Case(fpTag|uint64(layoutIdx)<<32|uint64(replBits)<<24|uint64(st)<<4|uint64(desired), nt, labels...)
 			}
 		}
 	}
